@@ -3,6 +3,7 @@ import WM.Spec.Search
 import WM.Model.Compile
 import WM.Spec.SearchStats
 import WM.Model.SearchCursor
+import WM.Model.SearchTop
 /-!
 Protocol handler of family `c01` (shared with `c09`).
 
@@ -25,6 +26,7 @@ hits MODE INDEX (Q ...)              -> (((id score) ...) ...)    spec: ascendin
 rank MODE INDEX (Q ...)              -> (((id score) ...) ...)    spec: ranking order
 compile MODE nc scored INDEX (Q ...) -> ((((id score) ...) ...) ...)  model: per query, per segment
 wf INDEX (Q ...)                     -> (segments-ok q-ok ...)    hypotheses of the theorems (0/1)
+topcursor MODE INDEX (Q ...) (OP ...)     -> (TRACE ...)               Term.matcher on the top searcher (topTerm), per query
 cursor MODE nc scored INDEX (Q ...) (OP ...)
                                      -> ((TRACE ...) ...)         cursor model: per query, per segment
    OP = n | r | (s delta)      next() | m = m.replace() | skip_to(id() + delta), applied cyclically while active
@@ -189,6 +191,16 @@ def showTrace (ls : LeafScore) (prog : Array POp) (s : Segment) (ctx : Ctx) (q :
     | .error e => showErr e
     | .ok tr => showList (fun p => "(" ++ toString p.1 ++ " " ++ showRat p.2 ++ ")") tr
 
+/-- the cursor `Term.matcher(top searcher)` builds (`topTerm`: a `MultiMatcher` over the segments' posting
+    readers), stepped with the program; global document numbers.  Other queries: `notimpl`. -/
+def showTopTrace (ls : LeafScore) (prog : Array POp) (ix : Index) : Query → String
+  | .term f t b =>
+    let n := (ix.map (·.size)).sum
+    match stepCursor prog ((n + 2) * (prog.size + 1)) 0 (topTerm ls ix f t b) [] with
+    | .error e => showErr e
+    | .ok tr => showList (fun p => "(" ++ toString p.1 ++ " " ++ showRat p.2 ++ ")") tr
+  | _ => "notimpl"
+
 def showHits (hs : List Hit) : String :=
   showList (fun h => "(" ++ toString h.id ++ " " ++ showRat h.score ++ ")") hs
 
@@ -227,6 +239,15 @@ def handle : List SExp → String
         | none => "bad-op"
       else "bad-op"
     | _, _, _, _, _ => "bad-op"
+  | [.atom "topcursor", m, idx, .list qs, .list prog] =>
+    match index? idx, qs.mapM query?, prog.mapM pop? with
+    | some ix, some qs, some prog =>
+      if prog.any (fun o => match o with | POp.next => true | _ => false) then
+        match mode? m ix with
+        | some ls => showList (fun q => showTopTrace ls prog.toArray ix q) qs
+        | none => "bad-op"
+      else "bad-op"
+    | _, _, _ => "bad-op"
   | [.atom "wf", idx, .list qs] =>
     match index? idx, qs.mapM query? with
     | some ix, some qs =>
